@@ -118,7 +118,7 @@ def xop (hw : Bool) (s : State) (j : Json) : Option (State × Json) := do
     let prog ← p.toList.mapM xinstr?
     let os := ((jField? j "or").bind jInts?).getD []
     let s0 : State := { s with oracle := os }
-    let r := run hw a prog fuel s0 0
+    let r ← runG hw a prog fuel s0 0     -- none: allocation guard (reported by `xguard`)
     let out := match r.out with
       | .halted => Json.mkObj [("o", "halted")]
       | .outOfFuel => Json.mkObj [("o", "fuel")]
@@ -160,9 +160,69 @@ def xsysop (hw : Bool) (sys : Sys) (j : Json) : Option (Sys × Json) := do
           | some o => (outcomeJ o).setObjVal! "pc" (toJson sb.pc)
     pure (sys', (r.setObjVal! "trace"
       (Json.arr ((sys'.s.trace.drop sys.s.trace.length).map evJ).toArray)))
+  else if k == "abort" then
+    let i ← (jField? j "i").bind jNat?
+    let mid := ((jField? j "mid").bind jBool?).getD false
+    let live := match sys.subs[i]? with | some sb => sb.fin.isNone | none => false
+    if !live then
+      pure (sys, Json.mkObj [("o", if (sys.subs[i]?).isSome then "done" else "none"), ("trace", Json.arr #[])])
+    else if !mid then
+      pure (abort sys i, Json.mkObj [("o", "aborted"), ("trace", Json.arr #[])])
+    else
+      let sys1 := tick hw sys i
+      let r := match sys1.subs[i]? with
+        | some sb => (match sb.fin with
+            | some (.fault f line) => outcomeJ (.fault f line)
+            | _ => Json.mkObj [("o", "aborted")])
+        | none => Json.mkObj [("o", "aborted")]
+      pure (abort sys1 i, (r.setObjVal! "trace"
+        (Json.arr ((sys1.s.trace.drop sys.s.trace.length).map evJ).toArray)))
+  else if k == "hooktick" then
+    -- one instruction while the reset hook `_clear_phys_qubit_in_memory` is armed to raise
+    let i ← (jField? j "i").bind jNat?
+    let live := match sys.subs[i]? with | some sb => sb.fin.isNone | none => false
+    let isFree := match nextInstr sys i with | some (.qfree _) => true | _ => false
+    let pc0 : Int := match sys.subs[i]? with | some sb => sb.pc | none => 0
+    let sys1 := tick hw sys i
+    let tr := Json.arr ((sys1.s.trace.drop sys.s.trace.length).map evJ).toArray
+    match sys1.subs[i]? with
+    | none => pure (sys1, Json.mkObj [("o", "none"), ("trace", tr)])
+    | some sb =>
+      if !live then pure (sys1, Json.mkObj [("o", "done"), ("trace", tr)])
+      else
+        let faulted := match sb.fin with | some (.fault _ _) => true | _ => false
+        if isFree && !faulted then
+          -- the qubit was released, then the hook raised: reported as a fault of that line
+          pure (abort sys1 i, Json.mkObj [("o", "fault"), ("cls", "RuntimeError"), ("kind", "hook"),
+            ("line", toJson pc0), ("pc", toJson pc0), ("trace", tr)])
+        else
+          let r := match sb.fin with
+            | none => Json.mkObj [("o", "live"), ("pc", toJson sb.pc)]
+            | some o => (outcomeJ o).setObjVal! "pc" (toJson sb.pc)
+          pure (sys1, r.setObjVal! "trace" tr)
   else do
     let (s', r) ← xop hw sys.s j
     pure (⟨s', sys.subs⟩, r)
+
+/-- would this op make the model allocate a huge array?  (only after model and code diverged) -/
+def xguard (hw : Bool) (sys : Sys) (j : Json) : Bool :=
+  match (jField? j "k").bind jStr? with
+  | some "sub" =>
+    (match (jField? j "a").bind jNat?, (jField? j "fuel").bind jNat?,
+        ((jField? j "p").bind jArr?).bind (fun p => p.toList.mapM xinstr?) with
+     | some a, some fuel, some prog =>
+       let os := ((jField? j "or").bind jInts?).getD []
+       (runG hw a prog fuel { sys.s with oracle := os } 0).isNone
+     | _, _, _ => false)
+  | some k =>
+    if k == "tick" || k == "hooktick" || k == "abort" then
+      (match (jField? j "i").bind jNat? with
+       | some i => (match sys.subs[i]? with
+          | some sb => sb.fin.isNone && bigArrayNext sys.s sb.a sb.prog sb.pc
+          | none => false)
+       | none => false)
+    else false
+  | none => false
 
 def handleExec (op : String) (j : Json) : Option Json :=
   if op == "exec.scenario" then do
@@ -170,14 +230,21 @@ def handleExec (op : String) (j : Json) : Option Json :=
     let appIds ← (jField? j "apps").bind jNats?
     let addrs ← (jField? j "addrs").bind jInts?
     let ops ← (jField? j "ops").bind jArr?
-    let rec go (sys : Sys) (l : List Json) (acc : Array Json) : Option (Array Json) :=
+    let nex := ((jField? j "nex").bind jNat?).getD 1
+    let rec go (m : List Sys) (l : List Json) (acc : Array Json) : Option (Array Json) :=
       match l with
       | [] => some acc
       | o :: rest =>
-        match xsysop hw sys o with
+        let ex := ((jField? o "ex").bind jNat?).getD 0
+        match m[ex]? with
         | none => none
-        | some (sys', r) => go sys' rest (acc.push (Json.mkObj [("r", r), ("st", stateJ sys'.s appIds addrs)]))
-    let outs ← go sys0 ops.toList #[]
+        | some sys =>
+          if xguard hw sys o then some (acc.push (Json.mkObj [("guard", true)])) else
+          match xsysop hw sys o with
+          | none => none
+          | some (sys', r) =>
+            go (m.set ex sys') rest (acc.push (Json.mkObj [("r", r), ("st", stateJ sys'.s appIds addrs)]))
+    let outs ← go (List.replicate nex sys0) ops.toList #[]
     pure (Json.mkObj [("steps", Json.arr outs)])
   else none
 
